@@ -31,10 +31,40 @@ type World struct {
 	ByName map[string]*ssa.Function // short name -> function
 	G      *Graph
 	cache  map[string]interface{}
+	// NormNotes: what normalize.go did to the source before analysis (helpers dissolved).
+	NormNotes []string
 }
 
 // LoadWorld loads ./... of repo.  overlay maps absolute file names to contents.
 func LoadWorld(repo string, overlay map[string][]byte, env []string, tags string) (*World, error) {
+	if os.Getenv("GKV_NO_NORMALIZE") == "" && len(unknownHelpers(repo, overlay)) > 0 {
+		norm := normalizeOverlay(repo, overlay, env, tags)
+		notes := append([]string{}, normalizeNotes...)
+		if d := os.Getenv("GKV_DEBUG_NORM"); d != "" {
+			for _, n := range notes {
+				fmt.Fprintln(os.Stderr, "norm:", n)
+			}
+			os.MkdirAll(d, 0o755)
+			for k, v := range norm {
+				os.WriteFile(filepath.Join(d, filepath.Base(k)), v, 0o644)
+			}
+		}
+		w, err := loadWorldRaw(repo, norm, env, tags)
+		if err == nil {
+			w.NormNotes = notes
+			return w, nil
+		}
+		notes = append(notes, "normalised source did not load ("+err.Error()+"): the original source is analysed")
+		w, err = loadWorldRaw(repo, overlay, env, tags)
+		if w != nil {
+			w.NormNotes = notes
+		}
+		return w, err
+	}
+	return loadWorldRaw(repo, overlay, env, tags)
+}
+
+func loadWorldRaw(repo string, overlay map[string][]byte, env []string, tags string) (*World, error) {
 	cfg := &packages.Config{
 		Mode:    packages.LoadAllSyntax,
 		Dir:     repo,
